@@ -75,6 +75,9 @@ pub enum FileCase {
     /// only, kind 1 = it is started by the source without any item (`SrcKind::Started` only).  The
     /// other two carry data whose values are all positive (sign 0) or all negative (sign 1): the
     /// hollow chromosome contributes no minimum and no maximum
+    /// `n` identical entries on one stretch (a pile: the depth and its square leave the integers
+    /// that single precision holds at 4 097) plus a few staggered ones
+    BedPile { n: u32, opts: Opts },
     WigHollow { pos: u32, kind: u32, sign: u32, opts: Opts },
     BedHollow { pos: u32, kind: u32, opts: Opts },
     /// bigwiginfo / bigbedinfo on an encoder-written file (C06 tool part)
@@ -138,6 +141,11 @@ pub fn expand(c: &FileCase) -> FileCase {
                 autosql: None,
                 opts: opts.clone(),
             })
+        }
+        FileCase::BedPile { n, opts } => {
+            let mut items: Vec<BItem> = (0..*n).map(|i| BItem { s: 10, e: 30, rest: format!("p{}", i) }).collect();
+            items.extend([(10u32, 31u32), (12, 20), (29, 40), (50, 51)].into_iter().enumerate().map(|(i, (s, e))| BItem { s, e, rest: format!("q{}", i) }));
+            FileCase::Bed(BedCase { chroms: vec![BChrom { name: "pile".into(), len: 100, items }, BChrom { name: "quiet".into(), len: 100, items: vec![BItem { s: 1, e: 9, rest: "r".into() }] }], extra_sizes: vec![], allow_ooo: false, autosql: None, opts: opts.clone() })
         }
         FileCase::WigHollow { pos, kind, sign, opts } => {
             let sg = if *sign == 1 { -1.0f32 } else { 1.0 };
@@ -986,6 +994,19 @@ pub fn wig_family(tier: Tier) -> Box<dyn Iterator<Item = FileCase>> {
             big.push(FileCase::WigBig { n, opts: o });
         }
     }
+    // index nodes with 2 047 / 2 048 / 2 100 entries (entry count x 32 bytes crosses 65 536): one item
+    // per section, block size 4 096
+    for n in [2047u32, 2048, 2100] {
+        for two_pass in [false, true] {
+            let mut o = Opts::base();
+            o.ips = 1;
+            o.bs = 4096;
+            o.two_pass = two_pass;
+            o.compress = n % 2 == 0;
+            o.zoom = Zoom::Manual(vec![16384]);
+            big.push(FileCase::WigBig { n, opts: o });
+        }
+    }
     Box::new(a.chain(b).chain(big.into_iter()).chain(many_cases(false, quick).into_iter()).chain(uneven_cases(false).into_iter()).chain(names_cases(false).into_iter()).chain(many_zoom_cases(false).into_iter()).chain(big_text_cases(false).into_iter()).chain(hollow_cases(false).into_iter()))
 }
 
@@ -1021,6 +1042,14 @@ pub fn bed_family(tier: Tier) -> Box<dyn Iterator<Item = FileCase>> {
     for n in [65535u32, 65536] {
         let mut o = Opts::base();
         o.ips = 65535;
+        o.zoom = Zoom::Manual(vec![16384]);
+        big.push(FileCase::BedBig { n, opts: o });
+    }
+    for n in [2048u32, 2100] {
+        let mut o = Opts::base();
+        o.ips = 1;
+        o.bs = 4096;
+        o.two_pass = n % 2 == 0;
         o.zoom = Zoom::Manual(vec![16384]);
         big.push(FileCase::BedBig { n, opts: o });
     }
@@ -1886,6 +1915,14 @@ impl Check for C06 {
         }
         big.extend(hollow_cases(false));
         big.extend(hollow_cases(true));
+        for n in [4096u32, 4097, 5000] {
+            for two_pass in [false, true] {
+                let mut o = Opts::base();
+                o.two_pass = two_pass;
+                o.ips = if two_pass { 1024 } else { 64 };
+                big.push(FileCase::BedPile { n, opts: o });
+            }
+        }
         Box::new(m.chain(w).chain(b).chain(tools).chain(big.into_iter()))
     }
     fn run(&self, case: &FileCase, out: &mut Outcome) {
@@ -2086,6 +2123,10 @@ pub fn oracle_c07(c: &WigCase, bytes: &[u8], all_ranges: bool, out: &mut Outcome
                 // the other access paths must give the same answer: the caching reader (one instance
                 // for the whole file, so earlier queries have filled its cache) and the by-value iterator
                 let mut vc = vec![];
+                // (every third query is preceded by a call that moves the source behind the cache's back)
+                if (s + e) % 3 == 0 {
+                    let _ = rc.get_summary();
+                }
                 for z in rc.get_zoom_interval(name, s, e, res).map_err(|e| format!("cached: {}", e))? {
                     vc.push(zr_from(&z.map_err(|e| format!("cached: {}", e))?));
                 }
@@ -2224,6 +2265,10 @@ pub fn oracle_c08(c: &BedCase, bytes: &[u8], all_ranges: bool, out: &mut Outcome
                 // the other access paths must give the same answer: the caching reader (one instance
                 // for the whole file, so earlier queries have filled its cache) and the by-value iterator
                 let mut vc = vec![];
+                // (every third query is preceded by a call that moves the source behind the cache's back)
+                if (s + e) % 3 == 0 {
+                    let _ = rc.get_summary();
+                }
                 for z in rc.get_zoom_interval(name, s, e, res).map_err(|e| format!("cached: {}", e))? {
                     vc.push(zr_from(&z.map_err(|e| format!("cached: {}", e))?));
                 }
@@ -2356,6 +2401,11 @@ impl Check for C08 {
                         o.two_pass = two_pass;
                         o.zoom = zoom;
                         o.ips = if lay % 2 == 0 { 1 } else { 1024 };
+                        if let FileCase::Bed(c) = expand(&FileCase::BedBeyondEnd { lay, opts: o.clone() }) {
+                            if !matches!(o.zoom, Zoom::AutoDefault) {
+                                v.push(FileCase::ZoomTool(c));
+                            }
+                        }
                         v.push(FileCase::BedBeyondEnd { lay, opts: o });
                     }
                 }
